@@ -54,7 +54,7 @@ func main() {
 	maxPaths := fs.Int("max-paths", 200000, "per harness")
 	maxDec := fs.Int("max-decisions", 4000, "per path")
 	maxSteps := fs.Int64("max-steps", 20000000, "per path")
-	maxUnwind := fs.Int("max-unwind", 4096, "back edges per frame")
+	maxUnwind := fs.Int("max-unwind", 1<<22, "back edges per frame")
 	preempt := fs.Int("preempt", 0, "preemption budget")
 	twin := fs.Bool("twin", false, "vacuity twin: every property assertion replaced by false")
 	verbose := fs.Bool("v", false, "verbose")
